@@ -483,11 +483,72 @@ def validate_translator(rng, trials=40, n=4, K=2):
     return mism
 
 
+def api_facts():
+    """API-level clauses of C11 on the real Procedure objects (concrete observations, run alongside the inductive
+    step): procedures of different origin, or separated by a signature-changing operation (partial_eval,
+    transpose, add_assertion), are never reported equivalent; equivalence-preserving steps are (reachability)."""
+    import corpus.seeds as S
+    from exo.core.proc_eqv import check_eqv_proc, get_strictest_eqv_proc
+    from exo.stdlib.scheduling import simplify, rename
+
+    problems = []
+    n = 0
+    procs = [(nm, p) for nm, p, _t in S.SEEDS if not p.is_instr()]
+    # different origins
+    for (na, a), (nb, b) in zip(procs[:-1:3], procs[1::3]):
+        n += 1
+        if check_eqv_proc(a._loopir_proc, b._loopir_proc) or get_strictest_eqv_proc(a._loopir_proc, b._loopir_proc)[0]:
+            problems.append(f"{na} and {nb} have different origins but are reported equivalent")
+    for nm, p in procs:
+        ir = p._loopir_proc
+        cands = []
+        sizes = [a for a in p.args() if not a.is_tensor() and str(a.type()) in ("ExoType.Size", "size")]
+        try:
+            from exo.core.LoopIR import T
+
+            ctrl = [(a.name.name(), a.type) for a in ir.args if isinstance(a.type, (T.Size, T.Index, T.Bool))]
+        except Exception:
+            ctrl = []
+        for an, ty in ctrl[:1]:
+            from exo.core.LoopIR import T
+
+            val = True if isinstance(ty, T.Bool) else 2
+            cands.append(("partial_eval", lambda p=p, an=an, val=val: p.partial_eval(**{an: val})))
+        for a in ir.args:
+            if a.type.is_tensor_or_window() and len(a.type.shape()) == 2:
+                cands.append(("transpose", lambda p=p, an=a.name.name(): p.transpose([c for c in p.args() if c.name() == an][0])))
+                break
+        for an, ty in ctrl[:1]:
+            from exo.core.LoopIR import T
+
+            if isinstance(ty, T.Size):
+                cands.append(("add_assertion", lambda p=p, an=an: p.add_assertion(f"{an} > 1")))
+        for kind, th in cands:
+            try:
+                q = th()
+            except BaseException:  # noqa
+                continue
+            n += 1
+            if check_eqv_proc(ir, q._loopir_proc) or get_strictest_eqv_proc(ir, q._loopir_proc)[0]:
+                problems.append(f"{nm}: the result of {kind} is reported equivalent to the procedure it came from (signature-changing operations start a new class)")
+        try:
+            q = rename(simplify(p), nm + "_r")
+            n += 1
+            if not check_eqv_proc(ir, q._loopir_proc):
+                problems.append(f"{nm}: simplify+rename is not reported equivalent (reachability of the positive case)")
+        except BaseException:  # noqa
+            pass
+    return n, problems
+
+
 def run(tier):
     t0 = time.time()
     vseed = seed_from_env()
     rng = random.Random(f"c11-{vseed}")
     rep = Reporter("C11")
+    n_api, api_problems = api_facts()
+    for pr in api_problems:
+        rep.report({"property": "C11", "kind": "api", "detail": pr, "summary": pr, "dedup": pr[:80]})
     n, K = (4, 2) if tier == "quick" else (4, 3)
     errors = []
     # translator validation first
@@ -541,6 +602,7 @@ def run(tier):
         "unroll": n,
         "solver_s": round(step.solver_s, 2),
         "histories_replayed_on_real_module": n_hist,
+        "api_level_queries": n_api,
         "translator_validation": "random concrete histories: real module vs py2smt on constants agreed on every check_eqv_proc query",
         "functions_encoded": ["_UnionFind.new_node", "_UnionFind.find", "_UnionFind.union", "_UnionFind.check_eqv", "_UnionFind.copy_entire_UF", "new_uf_by_eqv_key", "decl_new_proc", "derive_proc", "assert_eqv_proc", "check_eqv_proc", "get_strictest_eqv_proc"],
         "errors": errors,
